@@ -2,7 +2,7 @@
       (the spawn loop = LRouterSpawn at its end, the receive loop, the close loop, wg.Wait and the deferred wg.Done). *)
 From Coq Require Import ZArith List String Bool Lia Permutation.
 From Texel Require Import Pipe.Model Pipe.ProofsBase Pipe.ProofsInv Pipe.ProofsLive Pipe.Skeleton Pipe.SkeletonSem Pipe.SkeletonSim
-  Pipe.ProofsSkeleton Pipe.ConversePc Pipe.ConversePcSn Pipe.ProofsConversePc Pipe.ProofsConversePcSn Pipe.Converse
+  Pipe.ProofsSkeleton Pipe.ConversePc Pipe.ConversePcSn Pipe.ProofsConversePc Pipe.ProofsConversePcSn Pipe.Converse Pipe.ConverseRank
   Pipe.ProofsConverse1 Pipe.ProofsConverse2 Pipe.ProofsConverse4 Pipe.ProofsConverse5.
 Import ListNotations.
 Open Scope string_scope.
@@ -101,7 +101,7 @@ Lemma step_router : forall cfg roles chans wgs s t p c g' ev,
   coh cfg roles chans wgs s -> s_panic s = None -> nth_error roles t = Some (RoRouter p) ->
   gstep P (MkG (map (th_of (c_targets cfg)) roles) chans wgs None) (ALocal t c) = Some (g', ev) ->
   choice_ok s (th_rt (c_targets cfg) p) c ->
-  exists s', mstep cfg s s' /\ skel_rel cfg g' s'.
+  exists s', rstep cfg roles s g' s'.
 Proof.
   intros cfg roles chans wgs s t p c g' ev Hndts Hcoh Hpan Hn Hg Hch.
   set (ts := c_targets cfg) in *.
@@ -118,29 +118,32 @@ Proof.
   assert (Hgo : forall p' s' wch' wrest',
             s_sn s' = s_sn s -> s_rd s' = s_rd s -> s_main s' = s_main s -> s_panic s' = None ->
             (exists done', rt_core ts p' done' wch' wrest' (s_rt s') (s_wr s') (s_wgR s') /\ wview p' done' roles wch' (s_wr s')) ->
-            skel_rel cfg (MkG (map (th_of ts) (upd_nth t (RoRouter p') roles))
-                              (rd_is_closed (s_rd s) :: sn_is_closed (s_sn s) :: wch') (s_wgM s' :: wrest') None) s').
-  { intros p' s' wch' wrest' E1 E2 E3 E4 (done' & Hc' & Hv'). apply skel_rel_intro; [exact E4|].
+            coh cfg (upd_nth t (RoRouter p') roles)
+                (rd_is_closed (s_rd s) :: sn_is_closed (s_sn s) :: wch') (s_wgM s' :: wrest') s').
+  { intros p' s' wch' wrest' E1 E2 E3 E4 (done' & Hc' & Hv').
     eapply coh_upd; eauto; [discriminate | congruence|].
     rewrite <- E1, <- E2. apply (late_intro cfg pm _ s' wch' wrest' p').
     - eapply sn_clause_other; [|exact E1|exact Hsn]. apply (lk_upd_other _ _ _ (RoRouter p') KSnap Hn eq_refl). discriminate.
     - eapply rd_clause_other; [|exact E2|exact Hrd]. apply (lk_upd_other _ _ _ (RoRouter p') KRead Hn eq_refl). discriminate.
     - exact (lk_upd_same _ _ _ (RoRouter p') Hnd Hn eq_refl).
     - exists done'. split; [exact Hc'|]. eapply wview_router_upd; eauto. }
-  assert (Htau : forall p',
+  assert (Hrk : forall p', (rank_rt ts p' < rank_rt ts p)%nat ->
+            (rank_sum ts (upd_nth t (RoRouter p') roles) < rank_sum ts roles)%nat \/ pure_move roles (upd_nth t (RoRouter p') roles)).
+  { intros p' H. left. eapply rank_sum_upd; [exact Hn | exact H]. }
+  assert (Htau : forall p', (rank_rt ts p' < rank_rt ts p)%nat ->
             (exists done', rt_core ts p' done' wch wrest (s_rt s) (s_wr s) (s_wgR s) /\ wview p' done' roles wch (s_wr s)) ->
-            exists s', mstep cfg s s' /\ skel_rel cfg (MkG (map (th_of ts) (upd_nth t (RoRouter p') roles)) (rd_is_closed (s_rd s) :: sn_is_closed (s_sn s) :: wch) (s_wgM s :: wrest) None) s').
-  { intros p' H. exists s. split; [now left|]. apply Hgo; auto. }
+            exists s', rstep cfg roles s (MkG (map (th_of ts) (upd_nth t (RoRouter p') roles)) (rd_is_closed (s_rd s) :: sn_is_closed (s_sn s) :: wch) (s_wgM s :: wrest) None) s').
+  { intros p' Hr H. exists s. apply rstep_silent; [apply Hgo; auto | apply Hrk; exact Hr]. }
   destruct p; cbn [next_rt] in En; cbn [rt_core] in Hcore;
     try (invo En q k; specialize (Heff I Hg); cbn [shared_effect K] in Heff; subst g';
-         apply Htau; exists done; split; [exact Hcore | exact Hview]; fail).
+         (apply Htau; [unfold K; cbn [rank_rt]; rewrite ?map_length, ?app_length, ?map_length; cbn [List.length]; unfold tmid; lia|]); exists done; split; [exact Hcore | exact Hview]; fail).
   - (* T1: wg := sync.WaitGroup{} *)
     invo En q k. destruct Hcore as (-> & Hti & -> & ->).
-    specialize (Heff eq_refl Hg). cbn [shared_effect K] in Heff. subst g'. exists s. split; [now left|].
+    specialize (Heff eq_refl Hg). cbn [shared_effect K] in Heff. subst g'. exists s. apply rstep_silent; [|apply Hrk; unfold K; cbn [rank_rt]; rewrite ?map_length, ?app_length, ?map_length; cbn [List.length]; unfold tmid; lia].
     apply (Hgo T2 s [] [0%nat]); auto. exists []. split; [cbn; auto | exact Hview].
   - (* T2: the head statement of the spawn loop *)
     invo En q k. specialize (Heff I Hg). cbn [shared_effect K] in Heff. subst g'. destruct Hcore as (-> & Hti & -> & ->).
-    apply Htau. exists []. split; [|exact Hview]. cbn. exists ts. repeat split; try apply Hti; reflexivity.
+    apply Htau; [unfold K; cbn [rank_rt]; rewrite ?map_length, ?app_length, ?map_length; cbn [List.length]; unfold tmid; lia|]. exists []. split; [|exact Hview]. cbn. exists ts. repeat split; try apply Hti; reflexivity.
   - (* TH: head of the spawn loop *)
     destruct Hcore as (rem & (Hti & Hperm & -> & ->) & -> & -> & ->).
     destruct c as [| | |[z|]|]; try discriminate.
@@ -149,15 +152,15 @@ Proof.
       invo En q k. specialize (Heff I Hg). cbn [shared_effect K] in Heff. subst g'.
       destruct (mtake_split _ _ _ _ Em) as (a & b & Eab & -> & _).
       destruct (map_mkA_split _ _ _ _ _ Eab) as (r1 & r2 & -> & -> & -> & ->).
-      apply Htau. exists done. split; [|exact Hview]. cbn. exists (r1 ++ r2).
+      apply Htau; [unfold K; cbn [rank_rt]; rewrite ?map_length, ?app_length, ?map_length; cbn [List.length]; unfold tmid; lia|]. exists done. split; [|exact Hview]. cbn. exists (r1 ++ r2).
       split; [|auto]. split; [exact Hti|]. split; [|split; [now rewrite map_app | reflexivity]].
       eapply Permutation_trans; [|exact Hperm]. apply Permutation_app_head. cbn. apply Permutation_middle.
     + (* end of the spawn loop = LRouterSpawn *)
       destruct rem as [|r0 rem]; [|discriminate]. cbn in En. invo En q k. specialize (Heff I Hg). cbn [shared_effect K] in Heff. subst g'.
       destruct Hti as (Hrt0 & Hws0 & HwgR0). cbn [app] in Hperm. rewrite app_nil_r in Hperm.
-      exists (set_rt (set_wgR (set_wr s (map new_writer ts)) (s_wgR s + List.length ts)) TRecv). split.
-      * right. exists LRouterSpawn. rewrite (step_late _ _ _ pm Hpan Hmain). cbn. fold ts. now rewrite Hrt0.
-      * apply (Hgo (T3 (chmap done)) (set_rt (set_wgR (set_wr s (map new_writer ts)) (s_wgR s + List.length ts)) TRecv)
+      exists (set_rt (set_wgR (set_wr s (map new_writer ts)) (s_wgR s + List.length ts)) TRecv). right. split.
+      * exists LRouterSpawn. rewrite (step_late _ _ _ pm Hpan Hmain). cbn. fold ts. now rewrite Hrt0.
+      * apply skel_rel_intro; [exact Hpan|]. apply (Hgo (T3 (chmap done)) (set_rt (set_wgR (set_wr s (map new_writer ts)) (s_wgR s + List.length ts)) TRecv)
                   (repeat false (List.length done)) [List.length done]); auto. cbn [s_rt s_wr s_wgR set_rt set_wgR set_wr].
         destruct Hview as [Hb Hv]. cbn in Hb, Hv. exists done. split.
         -- cbn. split; [|split; [reflexivity | split; [reflexivity | apply allopen_repeat]]].
@@ -170,18 +173,18 @@ Proof.
     assert (Hfresh : fresh_ok (QNewChan "targetChannel") (expect_rt (TS1 (chmap done) z VAny (map mkA rem) (2 + List.length done)))
                        (rd_is_closed (s_rd s) :: sn_is_closed (s_sn s) :: repeat false (List.length done)) [s_wgM s; List.length done])
       by (cbn; now rewrite repeat_length).
-    specialize (Heff Hfresh Hg). cbn [shared_effect K] in Heff. subst g'. exists s. split; [now left|].
+    specialize (Heff Hfresh Hg). cbn [shared_effect K] in Heff. subst g'. exists s. apply rstep_silent; [|apply Hrk; unfold K; cbn [rank_rt]; rewrite ?map_length, ?app_length, ?map_length; cbn [List.length]; unfold tmid; lia].
     cbn [app]. rewrite repeat_snoc. apply Hgo; auto. exists done. split; [|exact Hview].
     cbn. exists rem. repeat split; auto; try apply Hti.
   - (* TS2: targetChannels[tmID] = targetChannel *)
     destruct Hcore as (rem & (Hti & Hperm & -> & ->) & -> & -> & -> & ->).
     invo En q k. specialize (Heff I Hg). cbn [shared_effect K] in Heff. subst g'.
-    apply Htau. exists done. split; [|exact Hview]. cbn. exists rem. repeat split; auto; try apply Hti.
+    apply Htau; [unfold K; cbn [rank_rt]; rewrite ?map_length, ?app_length, ?map_length; cbn [List.length]; unfold tmid; lia|]. exists done. split; [|exact Hview]. cbn. exists rem. repeat split; auto; try apply Hti.
     unfold chmap. rewrite <- mset_chmap_from by (eapply perm_nodup_mid; eauto). reflexivity.
   - (* TS3: wg.Add(1) *)
     destruct Hcore as (rem & (Hti & Hperm & -> & ->) & -> & -> & -> & ->).
     invo En q k. specialize (Heff I Hg). cbn [shared_effect K] in Heff. cbn [nth_error] in Heff.
-    destruct Heff as (v0 & Hv0 & ->). inversion Hv0; subst v0. exists s. split; [now left|].
+    destruct Heff as (v0 & Hv0 & ->). inversion Hv0; subst v0. exists s. apply rstep_silent; [|apply Hrk; unfold K; cbn [rank_rt]; rewrite ?map_length, ?app_length, ?map_length; cbn [List.length]; unfold tmid; lia].
     cbn [upd_nth]. rewrite Nat.add_1_r. apply Hgo; auto. exists done. split; [|exact Hview].
     cbn. exists rem. repeat split; auto; try apply Hti.
   - (* TS4: go func(target Target) {..}(target) — a Writer is started *)
@@ -194,11 +197,11 @@ Proof.
     assert (Hk1 : map kind_of roles1 = map kind_of roles) by (apply (kinds_upd _ _ _ _ Hn); reflexivity).
     assert (Hnew : ~ In (kind_of wr) (map kind_of roles1)).
     { rewrite Hk1. cbn. intros Hi. apply Hb in Hi. lia. }
-    exists s. split; [now left|].
-    change (skel_rel cfg (MkG (map (th_of ts) roles1 ++ [th_of ts wr])
+    exists s.
+    change (rstep cfg roles s (MkG (map (th_of ts) roles1 ++ [th_of ts wr])
                               (rd_is_closed (s_rd s) :: sn_is_closed (s_sn s) :: repeat false (S (List.length done)))
                               [s_wgM s; S (List.length done)] None) s).
-    rewrite map_th_app. apply skel_rel_intro; [exact Hpan|].
+    rewrite map_th_app. apply rstep_silent; [|left; unfold roles1; eapply rank_sum_go; [exact Hn | unfold p', wr; cbn [rank_role rank_rt rank_wr]; rewrite ?map_length; lia]].
     apply (coh_late_intro _ _ _ _ _ pm); auto.
     + rewrite lk_app_other by discriminate. unfold roles1. rewrite (lk_upd_other _ _ _ (RoRouter p') KMain Hn eq_refl) by discriminate. exact Hm.
     + apply nodup_kinds_app; [now rewrite Hk1 | exact Hnew].
@@ -224,7 +227,7 @@ Proof.
   - (* TS5: end of the iteration *)
     destruct Hcore as (rem & (Hti & Hperm & -> & ->) & -> & -> & -> & ->).
     invo En q k. specialize (Heff I Hg). cbn [shared_effect K] in Heff. subst g'.
-    apply Htau. exists (done ++ [z]). split.
+    apply Htau; [unfold K; cbn [rank_rt]; rewrite ?map_length, ?app_length, ?map_length; cbn [List.length]; unfold tmid; lia|]. exists (done ++ [z]). split.
     + cbn [rt_core]. exists rem. assert (El : List.length (done ++ [z]) = S (List.length done)) by (rewrite app_length; cbn; lia).
       rewrite El. split; [|auto]. split; [exact Hti|]. split; [|split; [reflexivity | lia]].
       cbn [app]. rewrite <- app_assoc. exact Hperm.
@@ -232,27 +235,27 @@ Proof.
   - (* TRv: receive on the closed featuresAfter = LRouterEof *)
     invo En q k. specialize (Heff I Hg). cbn [shared_effect] in Heff. destruct Heff as [Hc ->].
     cbn in Hc. inversion Hc as [Hcl]. destruct Hcore as (Hrc & -> & Hrt0 & Hopen).
-    exists (set_rt s (TClosing ts)). split.
-    + right. exists LRouterEof. rewrite (step_late _ _ _ pm Hpan Hmain). cbn. fold ts. rewrite Hrt0.
+    exists (set_rt s (TClosing ts)). right. split.
+    + exists LRouterEof. rewrite (step_late _ _ _ pm Hpan Hmain). cbn. fold ts. rewrite Hrt0.
       destruct (s_sn s); try discriminate; reflexivity.
-    + apply (Hgo (TG1 (chmap done) false) (set_rt s (TClosing ts)) wch wrest); auto.
+    + apply skel_rel_intro; [exact Hpan|]. apply (Hgo (TG1 (chmap done) false) (set_rt s (TClosing ts)) wch wrest); auto.
       exists done. split; [cbn; auto | exact Hview].
   - (* TG1 *)
-    destruct b; invo En q k; specialize (Heff I Hg); cbn [shared_effect K] in Heff; subst g'; apply Htau; exists done;
+    destruct b; invo En q k; specialize (Heff I Hg); cbn [shared_effect K] in Heff; subst g'; (apply Htau; [unfold K; cbn [rank_rt]; rewrite ?map_length, ?app_length, ?map_length; cbn [List.length]; unfold tmid; lia|]); exists done;
       (split; [exact Hcore | exact Hview]).
   - (* TG3: channel := targetChannels[tmID] *)
     destruct Hcore as (tm & m & Hrc & -> & Hrt0 & Hopen).
     unfold choice_ok in Hch. cbn in Hch. rewrite Hrt0 in Hch. subst c.
     invo En q k. specialize (Heff I Hg). cbn [shared_effect K] in Heff. subst g'.
-    apply Htau. exists done. split; [|exact Hview]. cbn. exists tm, m. auto.
+    apply Htau; [unfold K; cbn [rank_rt]; rewrite ?map_length, ?app_length, ?map_length; cbn [List.length]; unfold tmid; lia|]. exists done. split; [|exact Hview]. cbn. exists tm, m. auto.
   - (* TG4: if channel == nil { panic } *)
     destruct Hcore as (tm & m & Hrc & -> & Hrt0 & Hopen & ->).
     destruct (mget tm (chmap done)) eqn:Ev; try discriminate; invo En q k; specialize (Heff I Hg); cbn [shared_effect K] in Heff.
-    + subst g'. apply Htau. exists done. split; [|exact Hview]. cbn. exists tm, m. rewrite Ev. auto.
+    + subst g'. apply Htau; [unfold K; cbn [rank_rt]; rewrite ?map_length, ?app_length, ?map_length; cbn [List.length]; unfold tmid; lia|]. exists done. split; [|exact Hview]. cbn. exists tm, m. rewrite Ev. auto.
     + (* no channel for this tile matrix = LDeliver without a writer *)
       destruct Hrc as (Hperm & _ & _ & Hkeys).
-      exists (set_panic s (PanicNoChannel tm)). split.
-      * right. exists LDeliver. rewrite (step_late _ _ _ pm Hpan Hmain). cbn. rewrite Hrt0.
+      exists (set_panic s (PanicNoChannel tm)). right. split.
+      * exists LDeliver. rewrite (step_late _ _ _ pm Hpan Hmain). cbn. rewrite Hrt0.
         assert (Hnone : find_writer tm (s_wr s) = None).
         { apply find_writer_None. rewrite Hkeys. destruct (mget_chmap_from done 0 tm) as [[_ Hni]|(i & _ & Hv)].
           - intros Hi. apply Hni. eapply Permutation_in; [apply Permutation_sym; exact Hperm | exact Hi].
@@ -269,7 +272,7 @@ Proof.
   - (* TC0: the head statement of the close loop *)
     destruct Hcore as (Hrc & -> & Hrt0 & Hopen).
     invo En q k. specialize (Heff I Hg). cbn [shared_effect K] in Heff. subst g'.
-    apply Htau. exists done. split; [|exact Hview]. cbn [rt_core]. exists ts.
+    apply Htau; [unfold K; cbn [rank_rt]; rewrite ?map_length, ?app_length, ?map_length; cbn [List.length]; unfold tmid; lia|]. exists done. split; [|exact Hview]. cbn [rt_core]. exists ts.
     split; [exact Hrc|]. split; [reflexivity|]. split; [exact Hrt0|].
     destruct Hrc as (Hperm & _ & Hlen & _). eapply closing_start; eauto.
   - (* TCH: head of the close loop *)
@@ -277,10 +280,10 @@ Proof.
     destruct c as [| | |[z|]|]; try discriminate.
     + destruct (mtake z todo) as [[v todo']|] eqn:Em; [|discriminate].
       invo En q k. specialize (Heff I Hg). cbn [shared_effect K] in Heff. subst g'.
-      apply Htau. exists done. split; [|exact Hview]. cbn [rt_core]. exists tl0.
+      apply Htau; [unfold K; cbn [rank_rt]; rewrite ?map_length, ?app_length, ?map_length; cbn [List.length]; unfold tmid; lia|]. exists done. split; [|exact Hview]. cbn [rt_core]. exists tl0.
       split; [exact Hrc|]. split; [reflexivity|]. split; [exact Hrt0|]. eapply closing_take; eauto.
     + destruct todo as [|e todo]; [|discriminate]. invo En q k. specialize (Heff I Hg). cbn [shared_effect K] in Heff. subst g'.
-      apply Htau. exists done. split; [|exact Hview]. cbn. split; [exact Hrc|].
+      apply Htau; [unfold K; cbn [rank_rt]; rewrite ?map_length, ?app_length, ?map_length; cbn [List.length]; unfold tmid; lia|]. exists done. split; [|exact Hview]. cbn. split; [exact Hrc|].
       destruct Hcl as (_ & _ & H3 & _). destruct tl0 as [|x tl0]; [exact Hrt0|]. exfalso. apply (H3 x). now left.
   - (* TC1: close(targetChannel) = LRouterClose *)
     destruct Hcore as (tl0 & Hrc & -> & Hrt0 & Hcl).
@@ -291,12 +294,12 @@ Proof.
     destruct Hrc as (Hperm & Hwrest & Hlen & Hkeys).
     assert (Hndd : NoDup done) by (eapply Permutation_NoDup; [apply Permutation_sym; exact Hperm | exact Hndts]).
     destruct Hview as [Hb Hv]. cbn in Hb, Hv. destruct (Hv i z Hzi) as (chm' & pcw & w & Hlw & Hfw & Hrw & Hcw).
-    exists (set_rt (set_wr s (upd_writer z w_close (s_wr s))) (TClosing (remove_tm z tl0))). split.
-    + right. exists (LRouterClose z). rewrite (step_late _ _ _ pm Hpan Hmain). cbn. rewrite Hrt0.
+    exists (set_rt (set_wr s (upd_writer z w_close (s_wr s))) (TClosing (remove_tm z tl0))). right. split.
+    + exists (LRouterClose z). rewrite (step_late _ _ _ pm Hpan Hmain). cbn. rewrite Hrt0.
       assert (Hmem : memz z tl0 = true) by (apply memz_In; apply H3; now left). now rewrite Hmem.
     + change (upd_nth (2 + i) true (rd_is_closed (s_rd s) :: sn_is_closed (s_sn s) :: wch))
         with (rd_is_closed (s_rd s) :: sn_is_closed (s_sn s) :: upd_nth i true wch).
-      apply (Hgo (TC2 (chmap done) z (VChan (2 + i)) todo)
+      apply skel_rel_intro; [exact Hpan|]. apply (Hgo (TC2 (chmap done) z (VChan (2 + i)) todo)
                (set_rt (set_wr s (upd_writer z w_close (s_wr s))) (TClosing (remove_tm z tl0))) (upd_nth i true wch) wrest); auto.
       cbn [s_rt s_wr s_wgR set_rt set_wr]. exists done. split.
       * cbn. exists (remove_tm z tl0). split; [|split; [reflexivity | split; [reflexivity | now apply closing_close]]].
@@ -305,17 +308,17 @@ Proof.
   - (* TW: wg.Wait() returns *)
     destruct Hcore as (Hrc & Hrt0). invo En q k. specialize (Heff I Hg). cbn [shared_effect K] in Heff.
     pose proof Hrc as (_ & -> & _). cbn [nth_error] in Heff. destruct Heff as [Hv0 ->]. inversion Hv0 as [Hw0].
-    exists s. split; [now left|]. apply (Hgo (TX chm) s wch [s_wgR s]); auto.
+    exists s. apply rstep_silent; [|apply Hrk; unfold K; cbn [rank_rt]; rewrite ?map_length, ?app_length, ?map_length; cbn [List.length]; unfold tmid; lia]. apply (Hgo (TX chm) s wch [s_wgR s]); auto.
     exists done. split; [cbn; auto | exact Hview].
   - (* RX2: the deferred wg.Done() of ProcessFeatures = LRouterWait *)
     destruct Hcore as (Hrc & Hrt0 & HwgR0). invo En q k. specialize (Heff I Hg). cbn [shared_effect K] in Heff.
     cbn [nth_error] in Heff. destruct Heff as [(v0 & Hv0 & ->)|[Hv0 Hp]]; inversion Hv0 as [Hw0].
-    + exists (set_wgM (set_rt s TDone) v0). split.
-      * right. exists LRouterWait. rewrite (step_late _ _ _ pm Hpan Hmain). cbn. now rewrite Hrt0, HwgR0, Hw0.
-      * cbn [upd_nth]. apply (Hgo RX3 (set_wgM (set_rt s TDone) v0) wch wrest); auto.
+    + exists (set_wgM (set_rt s TDone) v0). right. split.
+      * exists LRouterWait. rewrite (step_late _ _ _ pm Hpan Hmain). cbn. now rewrite Hrt0, HwgR0, Hw0.
+      * cbn [upd_nth]. apply skel_rel_intro; [exact Hpan|]. apply (Hgo RX3 (set_wgM (set_rt s TDone) v0) wch wrest); auto.
         exists done. split; [cbn; auto | exact Hview].
-    + exists (set_panic s PanicWaitGroup). split.
-      * right. exists LRouterWait. rewrite (step_late _ _ _ pm Hpan Hmain). cbn. now rewrite Hrt0, HwgR0, Hw0.
+    + exists (set_panic s PanicWaitGroup). right. split.
+      * exists LRouterWait. rewrite (step_late _ _ _ pm Hpan Hmain). cbn. now rewrite Hrt0, HwgR0, Hw0.
       * apply skel_rel_panic; [exact Hp | discriminate].
   - (* RX4 *) discriminate.
 Qed.
